@@ -242,7 +242,8 @@ func region(off, n int) string {
 	return "body"
 }
 
-// faults <payloadspec|sources> <masks comma hex> <nrand> <seed>
+// faults <payloadspec|sources> <masks comma hex> <nrand> <seed> [flip stride] [truncation stride]
+// (strides > 1 sample the interior offsets; the first and last 32 offsets are always enumerated)
 func faultsMain(args []string) int {
 	root := cacheRoot()
 	var orig payload
@@ -261,6 +262,14 @@ func faultsMain(args []string) int {
 	nrand, _ := strconv.Atoi(args[2])
 	seed, _ := strconv.ParseInt(args[3], 10, 64)
 	rng := rand.New(rand.NewSource(seed))
+	flipStride, truncStride := 1, 1
+	if len(args) > 4 {
+		flipStride, _ = strconv.Atoi(args[4])
+	}
+	if len(args) > 5 {
+		truncStride, _ = strconv.Atoi(args[5])
+	}
+	phase := int(seed)
 
 	bc := &cache.BuildCache{GOOS: "js", GOARCH: "ecmascript", GOROOT: "/goroot", GOPATH: "/gopath", Version: "v"}
 	t0 := time.Unix(1700000000, 500)
@@ -310,9 +319,15 @@ func faultsMain(args []string) int {
 	}
 	fmt.Printf("missing - - %s\n", try(nil))
 	for k := 0; k < n; k++ {
+		if k >= 32 && k < n-32 && (k+phase)%truncStride != 0 {
+			continue
+		}
 		fmt.Printf("trunc %d %s %s\n", k, region(k, n), try(data[:k]))
 	}
 	for off := 0; off < n; off++ {
+		if off >= 32 && off < n-32 && (off+phase)%flipStride != 0 {
+			continue
+		}
 		for _, m := range masks {
 			d := append([]byte{}, data...)
 			d[off] ^= m
